@@ -3,6 +3,9 @@ package main
 
 import (
 	"io"
+	"strings"
+	"sync/atomic"
+	"time"
 
 	"github.com/sirupsen/logrus"
 
@@ -11,9 +14,26 @@ import (
 
 func main() {
 	logrus.SetOutput(io.Discard)
+	logrus.AddHook(startDelayHook{})
 	hx.Main(map[string]func(*hx.Ctx) error{
 		"probe":        driveProbe,
 		"stubdispatch": driveDispatch,
 		"stublife":     driveLife,
 	})
+}
+
+// startDelayMs > 0 makes the stub's Start linger at its "Started plugin" log line — the point between having
+// received the configuration result and marking itself started — so that a driver can deliver events in
+// that gap deterministically (the stub logs through logrus; output is discarded, hooks still run).
+var startDelayMs atomic.Int64
+
+type startDelayHook struct{}
+
+func (startDelayHook) Levels() []logrus.Level { return []logrus.Level{logrus.InfoLevel} }
+
+func (startDelayHook) Fire(e *logrus.Entry) error {
+	if d := startDelayMs.Load(); d > 0 && strings.HasPrefix(e.Message, "Started plugin") {
+		time.Sleep(time.Duration(d) * time.Millisecond)
+	}
+	return nil
 }
